@@ -241,6 +241,44 @@ var quantCounter int
 // normalizeForall rewrites (forall (bound...) body) into an equivalent formula with trigger-friendly reads.
 // It returns the complete SMT formula.
 func normalizeForall(op string, bound []string, body string) string {
+	first := normalizeForallAt(op, bound, body, 0)
+	if op != "forall" || len(bound) != 1 {
+		return first
+	}
+	// one bound variable read through several rows (tl[k], ul[k], result[k] ...): emit one equivalent copy
+	// of the formula per row, each triggered by a read of that row, so that a ground read of any of
+	// the rows instantiates the fact
+	tree := parseSexp(body)
+	if tree == nil {
+		return first
+	}
+	var reads []readTerm
+	collectReads(tree, bound, &reads, map[string]bool{})
+	seenIdx := map[string]bool{}
+	n := 0
+	for _, r := range reads {
+		if r.idx.count(bound[0]) == 1 && !seenIdx[r.idx.String()] {
+			if _, ok := solveFor(r.idx, bound[0], atom("u")); ok {
+				seenIdx[r.idx.String()] = true
+				n++
+			}
+		}
+	}
+	if n <= 1 {
+		return first
+	}
+	if n > 4 {
+		n = 4
+	}
+	parts := []string{first}
+	for k := 1; k < n; k++ {
+		parts = append(parts, normalizeForallAt(op, bound, body, k))
+	}
+	return and(parts...)
+}
+
+// normalizeForallAt: skip selects which candidate defining read (counted over distinct index texts) is used.
+func normalizeForallAt(op string, bound []string, body string, skip int) string {
 	binders := func(vs []string) string {
 		var bs []string
 		for _, v := range vs {
@@ -268,6 +306,8 @@ func normalizeForall(op string, bound []string, body string) string {
 	defined := map[string]bool{}
 	defRows := map[string]bool{}
 	for _, j := range bound {
+		toSkip := skip
+		skipped := map[string]bool{}
 		for ri := range reads {
 			r := reads[ri]
 			others := false
@@ -279,10 +319,18 @@ func normalizeForall(op string, bound []string, body string) string {
 			if others || r.idx.count(j) != 1 {
 				continue
 			}
+			if skipped[r.idx.String()] {
+				continue
+			}
 			quantCounter++
 			u := fmt.Sprintf("qi_%d", quantCounter)
 			sol, ok := solveFor(r.idx, j, atom(u))
 			if !ok {
+				continue
+			}
+			if toSkip > 0 {
+				toSkip--
+				skipped[r.idx.String()] = true
 				continue
 			}
 			// replace this read (and reads of other rows at the same index) by row[u], then eliminate j
